@@ -1,50 +1,47 @@
 import os
-import threading
-import time
 
 import engine_check
-import engine_run
 import vlib
 
 
-def _keep_alive(stop, t0, vmain_dir):
-    """vlib.prune_cache() (run at the end of EVERY check, also of checks running concurrently) deletes all but
-    the 400 most recently used build directories; a long run can lose its vmain.o or a chunk directory it is
-    compiling into ("linker command failed").  Keep the directories this run uses young while it runs."""
-    root = os.path.join(vlib.BUILD, "corpus")
-    while not stop.wait(4.0):
-        try:
-            os.utime(vmain_dir)
-        except OSError:
-            pass
-        try:
-            for x in os.listdir(root):
-                p = os.path.join(root, x)
-                try:
-                    if os.path.getmtime(p) >= t0:
-                        os.utime(p)
-                except OSError:
-                    pass
-        except OSError:
-            pass
+def names_stage(ctx):
+    """identity clause, message side: 'parse error matching ' + the rule's name must identify the rule.  demangle.hpp has a
+    code path per compiler and the correspondence harness is built with one compiler only, so this stage is compiled with
+    BOTH g++ and clang++ (harness/c05_names.cpp: names well bracketed, distinct for distinct rules, message and what())."""
+    total = 0
+    for cxx in ("g++", "clang++"):
+        exe = vlib.build_cpp([os.path.join(vlib.VERIF, "harness", "c05_names.cpp")], "c05_names_" + cxx.replace("+", "p"), flags=["-O0"], compiler=cxx)
+        rc, out = vlib.sh([exe], timeout=300)
+        done = [l for l in out.split("\n") if l.startswith("DONE ")]
+        if rc != 0 or not done:
+            ctx.violation("c05 names stage crashed (%s)" % cxx, "harness/c05_names.cpp built with %s ended abnormally: %s" % (cxx, out[-400:]), {"stage": "names", "compiler": cxx})
+            continue
+        total += int(done[0].split()[1])
+        for l in [l for l in out.split("\n") if l.startswith("BAD ")][:3]:
+            ctx.violation("rule name / default message (%s): %s" % (cxx, l[4:60]), "%s (built with %s)" % (l[4:], cxx), {"stage": "names", "compiler": cxx, "line": l})
+    ctx.cover(evaluations=total, distinct=total, validated=0, names_stage_rules=total)
 
 
 def run(ctx):
-    stop = threading.Event()
-    th = None
-    try:
-        common = engine_run.prepare_common()
-        th = threading.Thread(target=_keep_alive, args=(stop, time.time() - 1.0, os.path.dirname(common["vmain_o"])), daemon=True)
-        th.start()
-    except Exception:      # noqa  (engine_check.run reports build problems itself)
-        pass
-    try:
-        engine_check.run(ctx, "C05")
-    finally:
-        stop.set()
-        if th is not None:
-            th.join(timeout=10)
+    engine_check.run(ctx, "C05")
+    names_stage(ctx)
 
 
 def replay(j):
+    if (j.get("replay") or {}).get("stage") == "names":
+        class _C:
+            def __init__(self):
+                self.v = []
+
+            def violation(self, sig, what, rp):
+                self.v.append(what)
+
+            def cover(self, **k):
+                pass
+        c = _C()
+        names_stage(c)
+        for w in c.v[:6]:
+            print("REPLAY:", w[:300])
+        print("REPLAY: VIOLATION reproduced" if c.v else "REPLAY: not reproduced on the current tree")
+        return 1 if c.v else 0
     return engine_check.replay(j)
